@@ -491,6 +491,13 @@ def hostile_replay(tier, out):
     for _ in range(12):
         e_chain = f"0 <= {e_chain} + 1 <= 9"
     big.append(("chained-comparison-of-chained-comparisons-12", f"k = 2\nx = {e_chain}\n"))
+    # conditional-expression ladders (one line, many arms of differing types): inference and emission stay linear in the number of arms
+    for arms in (18, 40):
+        ladder_f = " else ".join(f"{k} if d < {10 * (k + 1)}" for k in range(arms)) + " else 0.5"
+        ladder_s = " else ".join(f"{k} if d < {10 * (k + 1)}" for k in range(arms // 2)) + " else " + " else ".join(f"'s{k}' if d < {900 + k}" for k in range(arms // 2)) + " else 'z'"
+        big.append((f"conditional-ladder-float-tail-{arms}", f"d = 5\nlevel = {ladder_f}\ndef f(d):\n    return {ladder_f}\ny = f(3)\n"))
+        big.append((f"conditional-ladder-string-tail-{arms}", f"d = 5\nlabel = {ladder_s}\n"))
+        big.append((f"conditional-ladder-in-body-arm-{arms}", "d = 5\nv = " + "(" * arms + "1.5" + "".join(f" if d > {k} else {k})" for k in range(arms)) + "\n"))
     # header / call regexes must not backtrack exponentially: long identifiers followed by text that makes the header not match
     L = "averyveryverylongidentifiername" * 2
     for k, text in enumerate([
@@ -524,6 +531,77 @@ def hostile_replay(tier, out):
     _S["hostile"] = {"cases": len(cases), "results": {c["case"]: c["result"] for c in res[:12]}}
 
 
+TARGET_PROG = r'''
+import sys, json, os, types, tempfile
+sys.path.insert(0, sys.argv[1])
+import Reduino
+events = []
+armed = [False]
+def hook(ev, args):
+    if armed[0] and ev in ("os.mkdir", "os.rename", "os.remove", "tempfile.mkdtemp", "tempfile.mkstemp", "subprocess.Popen", "os.system") :
+        events.append([ev, repr(args)[:100]])
+    if armed[0] and ev == "open" and isinstance(args[1], str) and any(c in args[1] for c in "wax+"):
+        events.append([ev, repr(args)[:100]])
+sys.addaudithook(hook)
+scratch = tempfile.mkdtemp(prefix="c11-target-")
+tempfile.tempdir = scratch
+out = []
+for name, src in json.loads(sys.argv[2]):
+    path = os.path.join(scratch, name.replace("/", "_") + ".py")
+    open(path, "w").write(src)
+    fake = types.ModuleType("__main__"); fake.__file__ = path
+    saved = sys.modules["__main__"]; sys.modules["__main__"] = fake
+    before = sorted(os.listdir(scratch))
+    events.clear(); armed[0] = True
+    try:
+        Reduino.target("COM3", upload=False)
+        res = "ok"
+    except (ValueError, SyntaxError) as ex:
+        res = "clean:" + type(ex).__name__
+    except BaseException as ex:
+        res = "CRASH:" + type(ex).__name__ + ": " + str(ex)[:80]
+    armed[0] = False
+    sys.modules["__main__"] = saved
+    after = sorted(os.listdir(scratch))
+    out.append({"case": name, "result": res, "events": list(events), "new_entries": [e for e in after if e not in before]})
+import shutil
+shutil.rmtree(scratch, ignore_errors=True)
+print(json.dumps(out))
+'''
+
+
+def target_on_rejected_scripts(out):
+    """target() on a script the transpiler rejects has no effect on the file system (no project directory is left behind, nothing is written)"""
+    import time as _t
+    t0 = _t.time()
+    src = os.path.join(os.environ.get("REDUINO_REPO", "/repo"), "src")
+    REJ = [("default-argument", "def f(a=1):\n    return a\ny = f()\n"), ("break-at-top-level", "x = 1\nbreak\n"), ("return-at-top-level", "x = 1\nreturn x\n"),
+           ("unknown-melody", "from Reduino.Actuators import Buzzer\nb = Buzzer(8)\nb.melody('nope')\n"),
+           ("accepted-control", "from Reduino.Actuators import Led\nled = Led(13)\nled.on()\n")]
+    bad = []
+    try:
+        rr = subprocess.run(["/venv/bin/python", "-c", TARGET_PROG, src, json.dumps(REJ)], capture_output=True, text=True, timeout=120)
+        res = json.loads(rr.stdout) if rr.returncode == 0 else None
+    except Exception as ex:
+        res, rr = None, None
+    if res is None:
+        out.append({"name": "C11/bounded/target-on-rejected-script-has-no-effect", "status": "unknown", "backend": "bounded-native", "bounded": True,
+                    "where": "harness failed: " + ((rr.stderr[-300:] if rr is not None else "no result")), "time": round(_t.time() - t0, 2)})
+        return
+    for r in res:
+        if r["case"] == "accepted-control":
+            if not r["result"] == "ok" or not r["new_entries"]:
+                bad.append({"case": r["case"], "problem": f"the accepted control script did not produce a project ({r['result']}, {r['new_entries']}): the observation is vacuous"})
+            continue
+        if not r["result"].startswith("clean:"):
+            bad.append({"case": r["case"], "problem": "expected a clean rejection, got " + r["result"]})
+        elif r["events"] or [e for e in r["new_entries"] if not e.endswith(".py")]:
+            bad.append({"case": r["case"], "problem": "a rejected script left traces on the file system", "events": r["events"][:4], "new_entries": r["new_entries"]})
+    out.append({"name": "C11/bounded/target-on-rejected-script-has-no-effect", "status": "discharged" if not bad else "sat", "backend": "bounded-native", "bounded": True,
+                "where": f"{len(REJ) - 1} rejected scripts through Reduino.target(port, upload=False): ValueError/SyntaxError and no directory, file or process is created (an accepted control script does create its project)",
+                "time": round(_t.time() - t0, 2), "replay": {"cases": bad}, "replay_confirmed": bool(bad)})
+
+
 def extra_obligations(mods_unused, tier, seed):
     out = []
     fin = finite_lemma(out)
@@ -533,6 +611,7 @@ def extra_obligations(mods_unused, tier, seed):
         e3_obligations(m, out, fin)
     e2_obligations(out)
     hostile_replay(tier, out)
+    target_on_rejected_scripts(out)
     # input-independent state: the same text transpiled repeatedly / after other texts in one process (bounded)
     from contracts import c10
     tmp = []
